@@ -1,9 +1,77 @@
 #!/usr/bin/env bash
-# Runs the deciding "checked" flavour; in the thorough tier also the auxiliary flavours
-# (plain release arithmetic; for C13 ASan and Miri) whose results are merged into the verdict.
+# Runs the deciding "checked" flavour (release + overflow-checks + debug-assertions). In the thorough tier the
+# workload is repeated per sanitizer family / build flavour, one family per build:
+#   plain  : release defaults (wrapping arithmetic, no debug_assert) - what a user's release build computes
+#   asan   : nightly -Zsanitizer=address (string-facing properties C10 C11 C13 C19)
+#   miri   : cargo +nightly miri run, 16 single-threaded shard processes (C13)
+# A violation or sanitizer report in any flavour makes the check fail (exit 1); an auxiliary flavour that cannot
+# be built or is killed is recorded as inconclusive in the evidence and does not change the verdict.
 set -u
 ID="$1"; MODE="$2"; TGT="$3"
 HERE="$(cd "$(dirname "$0")/.." && pwd)"
+H="$HERE/harness"
+SEED="${VERIF_SEED:-1}"
 "$TGT/release/hfcheck" "$ID" "$MODE"
 rc=$?
-exit $rc
+[ "$MODE" = "thorough" ] || exit $rc
+[ $rc -eq 2 ] && exit 2
+AUX="$TGT/aux-$ID"; rm -rf "$AUX"; mkdir -p "$AUX"
+fail=$rc
+note() { echo "$1" >> "$AUX/summary.txt"; }
+
+# ---- plain flavour
+if (cd "$H" && cargo build --offline --profile plain --bin hfcheck >"$AUX/build-plain.log" 2>&1); then
+  "$TGT/plain/hfcheck" "$ID" thorough --flavour plain --budget-div 4 --evidence-name "_aux-plain-$ID.json" >"$AUX/plain.out" 2>&1
+  r=$?
+  grep -a '^VIOLATION\|^KNOWN-FINDING\|^OK\|^FAIL\|^INCONCLUSIVE' "$AUX/plain.out" | sed 's/^/[plain] /' | cut -c1-400
+  if [ $r -eq 1 ]; then fail=1; note "plain violation"; elif [ $r -ne 0 ]; then note "plain inconclusive rc=$r"; else note "plain ok"; fi
+else
+  note "plain inconclusive: build failed"; echo "[plain] AUX-INCONCLUSIVE build failed (see $AUX/build-plain.log)"
+fi
+
+case "$ID" in C10|C11|C13|C19)
+  # ---- ASan
+  if (cd "$H" && RUSTFLAGS="-Zsanitizer=address -Cforce-frame-pointers=yes" CARGO_TARGET_DIR="$TGT-asan" cargo +nightly build --offline --release --target x86_64-unknown-linux-gnu --bin hfcheck >"$AUX/build-asan.log" 2>&1); then
+    ASAN_OPTIONS="halt_on_error=1:abort_on_error=0:detect_leaks=1:log_path=$AUX/asan-report" \
+      "$TGT-asan/x86_64-unknown-linux-gnu/release/hfcheck" "$ID" thorough --flavour asan --budget-div 8 --evidence-name "_aux-asan-$ID.json" >"$AUX/asan.out" 2>&1
+    r=$?
+    grep -a '^VIOLATION\|^OK\|^FAIL\|^INCONCLUSIVE' "$AUX/asan.out" | sed 's/^/[asan] /' | cut -c1-400
+    if ls "$AUX"/asan-report* >/dev/null 2>&1 || grep -a -q 'ERROR: AddressSanitizer\|ERROR: LeakSanitizer' "$AUX/asan.out"; then
+      mkdir -p "$HERE/replays"; rp="$HERE/replays/$ID-thorough-s$SEED-asan-report.txt"
+      cat "$AUX"/asan-report* "$AUX/asan.out" 2>/dev/null | head -400 > "$rp"
+      echo "VIOLATION property=$ID replay=$rp"; fail=1; note "asan report"
+    elif [ $r -eq 1 ]; then fail=1; note "asan-flavour violation"
+    elif [ $r -ne 0 ]; then note "asan inconclusive rc=$r"; else note "asan ok"; fi
+  else
+    note "asan inconclusive: build failed"; echo "[asan] AUX-INCONCLUSIVE build failed (see $AUX/build-asan.log)"
+  fi
+  ;;
+esac
+
+if [ "$ID" = "C13" ]; then
+  # ---- Miri: 16 shard processes, a few hundred strings x 11 entry points each
+  if (cd "$H" && MIRIFLAGS="-Zmiri-disable-isolation" CARGO_TARGET_DIR="$TGT-miri" cargo +nightly miri run --offline --bin hfcheck -- C13 quick --budget-div 100000000 --one-shard 0 --skip-selftest --no-git --evidence-name _aux-miri-warmup.json --flavour miri >"$AUX/build-miri.log" 2>&1); then
+    pids=""
+    for k in $(seq 0 15); do
+      (cd "$H" && MIRIFLAGS="-Zmiri-disable-isolation" CARGO_TARGET_DIR="$TGT-miri" timeout 3000 cargo +nightly miri run --offline --bin hfcheck -- C13 quick --seed "$SEED" --budget-div "${VERIF_MIRI_DIV:-8000}" --one-shard $k --skip-selftest --no-git --evidence-name "_aux-miri-$k.json" --flavour miri >"$AUX/miri-$k.out" 2>&1; echo $? >"$AUX/miri-$k.rc") &
+      pids="$pids $!"
+    done
+    wait $pids
+    mok=0; mbad=0; minc=0
+    for k in $(seq 0 15); do
+      r=$(cat "$AUX/miri-$k.rc" 2>/dev/null || echo 99)
+      if grep -a -q 'Undefined Behavior\|error: unsupported operation\|memory leaked\|Data race' "$AUX/miri-$k.out"; then
+        rp="$HERE/replays/$ID-thorough-s$SEED-miri-shard$k.txt"; tail -80 "$AUX/miri-$k.out" > "$rp"
+        echo "VIOLATION property=$ID replay=$rp"; mbad=$((mbad+1))
+      elif [ "$r" = "1" ]; then grep -a '^VIOLATION' "$AUX/miri-$k.out" | sed 's/^/[miri] /'; mbad=$((mbad+1))
+      elif [ "$r" = "0" ]; then mok=$((mok+1)); else minc=$((minc+1)); fi
+    done
+    echo "[miri] shards ok=$mok violating=$mbad inconclusive=$minc"
+    note "miri shards ok=$mok violating=$mbad inconclusive=$minc"
+    [ $mbad -gt 0 ] && fail=1
+  else
+    note "miri inconclusive: build/warm-up failed"; echo "[miri] AUX-INCONCLUSIVE warm-up failed (see $AUX/build-miri.log)"
+  fi
+fi
+python3 "$HERE/tools/merge_aux.py" "$ID" "$AUX" || true
+exit $fail
